@@ -35,16 +35,16 @@ REGISTRY = {
                 trusted=PYVC_TRUSTED + ['counting lemmas lemma_masked_degree / lemma_degree_monotone (code-independent; engine/lean)', 'engine/lean/extract.py (numpy->Lean extraction of the callees degrees_und / degrees_dir / strengths_und / binarize, whose SMT callee contracts are discharged as Lean theorems over the extracted source)'],
                 assumptions=['peel=True outputs are covered by the bounded stand-in only',
                              'kcoreness_centrality_bu/_bd are proved modularly against the results KC(CIJ,k), KN(CIJ,k) of kcore_bu/kcore_bd (their own contracts are proved separately; the link "KC is the k-core" is the kcore contract, the callee is abstract in the caller); coreness is the largest k < N whose core contains the node (degree >= N cases: see known finding)'],
-                technique='deductive (pyvc+z3): ghost alive-set invariant, maximality against an arbitrary (Skolem) node set meeting the bound; bounded subset-enumeration oracle for coreness and peel outputs'),    'C02': dict(extra_proved=['checks.lean_check.lean', 'checks.lean_extract.lean_extracted'], level='proof', bounded='checks.bounded.C02', pyvc=[('contracts.modularity', k, None, r'C07-') for k in ['modularity_finetune_und', 'modularity_finetune_dir', 'modularity_louvain_und', 'modularity_louvain_und#level']],
+                technique='deductive (pyvc+z3): ghost alive-set invariant, maximality against an arbitrary (Skolem) node set meeting the bound; bounded subset-enumeration oracle for coreness and peel outputs'),    'C02': dict(extra_proved=['checks.lean_check.lean', 'checks.lean_extract.lean_extracted'], level='proof', bounded='checks.bounded.C02', pyvc=[('contracts.modularity', k, None, r'C07-') for k in ['modularity_finetune_und', 'modularity_finetune_dir', 'modularity_finetune_und_sign', 'modularity_louvain_und', 'modularity_louvain_und#level', 'modularity_louvain_und_sign', 'modularity_louvain_und_sign#level']],
                 trusted=PYVC_TRUSTED + ['modularity lemmas of engine/pyvc/core.py (gain lemma Qraw_move+nm_modularity, q_from_aggregate, relabelling invariance, node-to-module sum identities): code-independent, Lean'],
                 assumptions=['products/quotients of two symbolic reals are kept uninterpreted (umul/udiv) in the shape the code computes them; only sign facts of udiv are used',
-                             'modularity_louvain_und is proved for hierarchy=False; hierarchy=True output, modularity_louvain_dir (known finding), signed variants, probtune, spectral modularity_und/_dir, community_louvain are covered by the bounded stand-in only', 'lists of arrays of symbolic length are modelled by tracking only the provably addressed slots (engine/pyvc/core.py:SList); a fragment contract used modularly is assumed only through its ensures, its requires are obligations at the use site'],
-                technique='deductive (pyvc+z3+lemmas) for modularity_finetune_und/_dir and modularity_louvain_und (whole function, level fragment used modularly): labels exactly 1..k and returned q = modularity of the returned labels; bounded stand-in for the other detectors'),
-    'C07': dict(extra_proved=['checks.lean_check.lean'], level='proof', bounded='checks.bounded.C07', pyvc=[('contracts.modularity', k, None, r'C02-') for k in ['modularity_finetune_und', 'modularity_finetune_dir', 'modularity_louvain_und']] +
+                             'modularity_louvain_und is proved for hierarchy=False; hierarchy=True output, modularity_louvain_dir (known finding), probtune, spectral modularity_und/_dir, community_louvain are covered by the bounded stand-in only; the signed routines (finetune_und_sign, louvain_und_sign) are proved for all five qtypes incl. the scaling factors of the requested type', 'lists of arrays of symbolic length are modelled by tracking only the provably addressed slots (engine/pyvc/core.py:SList); a fragment contract used modularly is assumed only through its ensures, its requires are obligations at the use site'],
+                technique='deductive (pyvc+z3+lemmas) for modularity_finetune_und/_dir/_und_sign and modularity_louvain_und/_und_sign (whole functions, level fragments used modularly): labels exactly 1..k and returned q = (signed) modularity of the returned labels; bounded stand-in for the other detectors'),
+    'C07': dict(extra_proved=['checks.lean_check.lean'], level='proof', bounded='checks.bounded.C07', pyvc=[('contracts.modularity', k, None, r'C02-') for k in ['modularity_finetune_und', 'modularity_finetune_dir', 'modularity_louvain_und', 'modularity_louvain_und_sign']] +
                      [('contracts.modularity', k, None, None) for k in ['modularity_louvain_und#level', 'community_louvain#level', 'modularity_louvain_dir#level', 'modularity_finetune_und_sign', 'modularity_louvain_und_sign#level']],
                 trusted=PYVC_TRUSTED + ['modularity lemmas of engine/pyvc/core.py (gain lemma, relabelling invariance, node-to-module sum identities): code-independent, Lean'],
                 assumptions=['products/quotients of two symbolic reals are kept uninterpreted (umul/udiv)',
-                             'Louvain level fragments (modularity_louvain_und, community_louvain; modularity_louvain_dir = known finding): ONE hierarchy level is proved for an arbitrary working matrix; ASSUMED at level entry: the working matrix is the (symmetric) aggregate, s equals its total weight, the bookkeeping of community_louvain is consistent at level start; the composition of levels, signed variants: bounded only'],
+                             'modularity_louvain_und and modularity_louvain_und_sign are proved end to end (the level fragment is used modularly, its entry conditions are obligations of the whole-function contract); for community_louvain (and modularity_louvain_dir = known finding) only ONE hierarchy level is proved as a fragment for an arbitrary working matrix, ASSUMING at level entry that the bookkeeping is consistent; the composition of its levels is bounded only'],
                 technique='deductive (pyvc+z3+gain lemma): bookkeeping invariant KInv and Q never below the start for modularity_finetune_und/_dir, all networks, all start partitions, all visiting orders; bounded per-move gain monitor for the other optimisers'),    'C12': dict(level='other', bounded='checks.bounded.C12', pyvc=[('contracts.distance', 'retrieve_shortest_path', None, None)], trusted=PYVC_TRUSTED,
                 assumptions=['retrieve_shortest_path is proved against the abstract predicate FloydConsistent; that distance_wei_floyd establishes it, and all of navigation_wu, are covered by the bounded stand-in only'],
                 technique='deductive (pyvc+z3) for retrieve_shortest_path relative to the FloydConsistent contract of its producer; the producer contract and navigation_wu are bounded (woven postcondition on exhaustive small scopes with ties)'),    'C04': dict(level='exploration', bounded='checks.bounded.C04', extra_proved=['checks.lean_extract.lean_extracted'],
